@@ -27,6 +27,7 @@ import json
 from typing import Any
 
 from flask import Blueprint, url_for
+from markupsafe import escape
 
 from dashlive.utils.objects import flatten_iterable
 from dashlive.utils.date_time import (
@@ -200,7 +201,9 @@ def xmlSafe(value: str | None) -> str:
     """
     if value is None:
         return ""
-    return value.replace('&', '&amp;')
+    # escape() returns a Markup object, so the value is not escaped a
+    # second time by templates that have autoescape enabled (*.xml)
+    return escape(value)
 
 @custom_tags.app_template_filter()
 def sortedAttributes(value):
